@@ -332,6 +332,35 @@ struct _spawn_future_op_base {
 
         return;
 
+      case _future_state::abandoned:
+        // the future was connected and received a stop request (abandon() has
+        // already requested stop and set evt_) and is now being destroyed
+        // without having been started; negotiate deletion with the spawned
+        // operation like a completing future does
+        if (state_.compare_exchange_strong(
+                state,
+                _future_state::complete,
+                // on success we need to publish our writes to the spawned
+                // operation
+                std::memory_order_release,
+                // on failure we need to observe the operation's writes
+                std::memory_order_acquire)) {
+          // the still-running operation will clean up when it completes
+          return;
+        }
+
+        UNIFEX_ASSERT(state == _future_state::complete);
+
+        [[fallthrough]];
+
+      case _future_state::complete:
+        // the future was abandoned and the operation has since completed and
+        // handed clean-up responsibility to us
+        std::atomic_thread_fence(std::memory_order_acquire);
+        deleter_(this, _future_state::complete);
+
+        return;
+
       default:  // should never happen
         std::terminate();
     }
